@@ -254,9 +254,19 @@ def run(fx, rep, tier):
             s5 = type(rep)(rep.prop, rep.tier)
             c19.run({"dev": facts}, s5, "quick", shares=False)
             for o in s5.obls:
-                if o["rule"] == "C19-R4":
+                # ... and every result is reported: an evaluation error does not end the run before the report is written
+                if o["rule"] == "C19-R4" or (o["rule"] == "C19-R1" and (o["key"].startswith("early-exit") or o["key"].startswith("loop-continues"))):
                     o["rule"] = "C18-R5"
                     sub.obls.append(o)
+            # a looked-up fact can only be reported by a session whose index was built, committed and reloaded before the
+            # first lookup (a reader that reloads "some time after the commit" answers the first queries from an empty index)
+            sub.rule("C18-R6", "each query is answered from the complete index: every session builds, commits and reloads before "
+                               "it hands out the database (shared with C15-R6)")
+            from . import c15
+            s6 = type(rep)(rep.prop, rep.tier)
+            c15.r6_session(facts, s6, rule="C18-R6")
+            for o in s6.obls:
+                sub.obls.append(o)
         if sub is not rep:
             for o in sub.obls:
                 o["key"] += "[rel]"
